@@ -1,0 +1,6 @@
+//go:build !verif
+
+package xmss
+
+// verifLeaf is the disabled form of the verification leaf seam (see verif_on.go).
+func verifLeaf(leaf []uint8, lTreeAddr *[8]uint32) bool { return false }
